@@ -169,6 +169,61 @@ def dispatch_obligations(ctx, r6, r7):
                facts={"members": members, "true_for": sorted(got)})
 
 
+def engine_event_obligations(ctx, rule):
+    """The engine hands each lifecycle event the engine's current kernel / model states
+    and fresh keys, mapped over chains, and stores the kernel states that come back."""
+    repo = ctx.repo
+    eng = repo.cls("liesel.goose.engine.Engine")
+    SELF = n("self")
+    ks_f, ms_f = ("a", SELF, "_kernel_states"), ("a", SELF, "_model_states")
+    table = {"start_epoch": ("_kernel_start_epoch", None, 4),
+             "end_epoch": ("_end_epoch", None, 4),
+             "tune": ("_tune_kernels", "kernel_states", 5),
+             "end_warmup": ("_end_warmup", "kernel_states", 4)}
+    seen = 0
+    for ev, (mname, field, nargs) in table.items():
+        fi = method(repo, eng, mname)
+        res = evaluate(repo, fi)
+        calls = [(t, cond) for t, _, cond in res.calls
+                 if t[0] == "call" and t[1][0] == "call" and is_call(t[1], "jax.vmap")
+                 and t[1][2] and t[1][2][0] == ("a", ("a", SELF, "_kernel_sequence"), ev)]
+        ok_one = len(calls) == 1
+        ctx.ob(rule, fi, f"Engine.{mname} calls kernel_sequence.{ev} once, mapped over chains",
+               ok_one, detail=f"{len(calls)} call(s)", stmt=f"{mname} -> {ev}")
+        if not ok_one:
+            continue
+        seen += 1
+        call, ccond = calls[0]
+        args = call[2]
+        ia = kw(call[1], "in_axes", 1)
+        want_axes = ("tuple", tuple([c(0), c(0), c(0), c(None), c(0)][:nargs])) \
+            if ev != "end_warmup" else None
+        ok_axes = ia == want_axes or (ev == "end_warmup" and ia in (None, c(0)))
+        ok_args = (len(args) == nargs and args[1] == ks_f and args[2] == ms_f
+                   and args[0][0] in ("call", "fresh") and not any(
+                       x in (ks_f, ms_f) for x in subterms(args[0])))
+        ctx.ob(rule, fi, f"kernel_sequence.{ev} receives (fresh keys, the engine's kernel "
+                         f"states, the engine's model states, ...) with keys / states mapped "
+                         f"over the chain axis and the epoch broadcast", ok_args and ok_axes,
+               detail=f"args {[short(a, 50) for a in args]}; in_axes {short(ia or ())}",
+               stmt=f"{mname} arguments")
+        out = call if field is None else ("a", call, field)
+        st = [(val, cond) for loc, val, _, cond in res.stores if loc == ks_f]
+        ok_store = len(st) == 1 and st[0][0] == out and tuple(st[0][1]) == tuple(ccond)
+        ctx.ob(rule, fi, f"the kernel states returned by {ev} become the engine's kernel "
+                         f"states (on every path that made the call)", ok_store,
+               detail=str([short(v, 80) for v, _ in st]), stmt=f"{mname} stores kernel states")
+        if ev == "tune":
+            app = [t for t, _, cond in res.calls
+                   if t[0] == "call" and t[1] == ("a", ("a", SELF, "_tuning_info_chain"), "append")]
+            ok_ti = (len(app) == 1 and app[0][2] and app[0][2][0][0] == "call"
+                     and ("a", call, "infos") in set(subterms(app[0][2][0])))
+            ctx.ob(rule, fi, "the tuning infos returned by tune are appended to the tuning "
+                             "info chain (end_warmup hands them back to the kernels)", ok_ti,
+                   stmt="tuning infos recorded")
+    return seen
+
+
 def kernel_sequence_obligations(ctx, rule, events):
     """Each KernelSequence method calls the same-named kernel method once per kernel and
     hands every kernel the sequence's own arguments (shared with C12.R3 for tune)."""
@@ -193,6 +248,46 @@ def kernel_sequence_obligations(ctx, rule, events):
         n_ok += 1
         if not one:
             continue
+        # ---- what comes back: one entry per kernel, taken from that kernel's result
+        call0 = kcalls[0][0]
+        rt_ = rm.ret()
+
+        def appended(t):
+            """element appended once per iteration to an initially empty list, or None"""
+            if t is not None and t[0] == "loop" and t[2][0] == "mut" and t[2][2] == "append" \
+                    and t[2][1][0] == "carried" and len(t[2][3]) == 1 \
+                    and t[2][1][2][0] == "list" and t[2][1][2][1] == ():
+                return t[2][3][0]
+            if t is not None and t[0] == "comp" and t[1] == "list" and len(t[3]) == 1:
+                return t[2]
+            return None
+
+        def dict_entries(t):
+            return [(loc[2], val) for loc, val, _, _ in rm.stores
+                    if loc[0] == "s" and loc[1] == t]
+        ident = ("a", call0[1][1], "identifier")
+        if m in ("init_states", "start_epoch", "end_epoch"):
+            ok_r = appended(rt_) == call0
+            what = "the list of the kernels' returned states, in kernel order"
+        else:
+            outs = {"transition": ("kernel_state", "info", "infos"),
+                    "tune": ("kernel_state", "info", "infos"),
+                    "end_warmup": ("kernel_state", "error_code", "error_codes")}[m]
+            ok_r = False
+            if rt_ is not None and rt_[0] == "call":
+                ks_t = kw(rt_, "kernel_states")
+                d_t = kw(rt_, outs[2])
+                ents = dict_entries(d_t) if d_t is not None else []
+                ok_r = (appended(ks_t) == ("a", call0, outs[0])
+                        and ents == [(ident, ("a", call0, outs[1]))])
+                if m == "transition":
+                    ms_t = kw(rt_, "model_state")
+                    ok_r = ok_r and ms_t == ("loop", "model_state", ("a", call0, "model_state"))
+            what = (f"every kernel's returned kernel state (in kernel order) and its "
+                    f"{outs[1]} under the kernel's identifier"
+                    + (", and the model state left by the last kernel" if m == "transition" else ""))
+        ctx.ob(rule, mfi, f"KernelSequence.{m} returns {what}", ok_r,
+               detail=short(rt_ or (), 160), stmt=f"{m} result")
         # every kernel sees the sequence's own arguments: nothing is rebound between
         # kernels (except the model state that transition threads through)
         proto = repo.cls("liesel.goose.types.Kernel").own_method(kname)
@@ -614,6 +709,8 @@ def check(ctx):
     # ------------------------------------------------------------- R8 kernel sequence
     n_ok = kernel_sequence_obligations(ctx, "C07.R8", EVENTS)
     ctx.require_min("KernelSequence lifecycle methods", n_ok, 6)
+    n_ev = engine_event_obligations(ctx, "C07.R8")
+    ctx.require_min("engine lifecycle events", n_ev, 4)
 
     # sample_all_epochs drives sample_next_epoch while epochs remain
     sae = method(repo, eng, "sample_all_epochs")
